@@ -9,6 +9,8 @@ import Pog.Model.Basic
   dict[str, str]                           `Dict` = association list, insertion order kept
   d[k] = v                                 `dictSet`   (exact, case-SENSITIVE key; replace in place / append)
   d.update(e)                              `dictUpdate` (fold of `dictSet` in the order of `e`)
+  merge_headers(d, e)  (core/auth/base.py) `dictUpdateCI` (fold of `dictSetCI`: entries whose name differs from
+                                           the written one only in ASCII case are deleted, then `d[k] = v`)
   request_args (what a plug-in sees)       `RequestArgs` (absent key = `none`)
   BaseAuth.authenticate_request            `authenticate` (`ValueError` = `Except.error`)
   HttpxTransport._prepare_headers          `prepareHeaders`
@@ -18,6 +20,9 @@ import Pog.Model.Basic
   ASSUMPTION: plug-ins are values — the members of a composite are distinct objects.  (The same
   `OAuth2Auth` instance listed twice in one composite would see its own refreshed token on the
   second visit; that aliasing is not modelled.)  The refresh callback is a pure function of the token.
+
+  ASSUMPTION: header names are ASCII (httpx encodes them as ASCII and refuses anything else), so
+  Python's `str.lower()` in `merge_headers` is the ASCII lower-casing `lowerA` of `ciEq`.
 
   TRUSTED (description of httpx 0.28.1, `_models.Headers` / `_client._merge_headers`): a header
   dict is sent entry by entry, two keys that differ only in case are two header lines; reading
@@ -44,10 +49,22 @@ def dictUpdate (d : Dict) (e : Dict) : Dict := e.foldl (fun acc kv => dictSet ac
 
 def dictKeys (d : Dict) : List Str := d.map Prod.fst
 
-/-! ### the wire view (trusted description of httpx) -/
-
-/-- ASCII-case-insensitive equality of header names. -/
+/-- ASCII-case-insensitive equality of header names (`a.lower() == b.lower()`). -/
 def ciEq (a b : Str) : Bool := a.map lowerA == b.map lowerA
+
+/-- `k != name and k.lower() == name.lower()`: `k` is another spelling of the header name `name`. -/
+def otherSpelling (name k : Str) : Bool := k != name && ciEq k name
+
+/-- One entry of `merge_headers`:
+    `for existing in [k for k in headers if k != name and k.lower() == name.lower()]: del headers[existing]`,
+    then `headers[name] = value`. -/
+def dictSetCI (d : Dict) (k v : Str) : Dict :=
+  dictSet (d.filter (fun kv => !otherSpelling k kv.1)) k v
+
+/-- `merge_headers(d, e)` (core/auth/base.py): `dictSetCI` for every entry of `e`, in the order of `e`. -/
+def dictUpdateCI (d : Dict) (e : Dict) : Dict := e.foldl (fun acc kv => dictSetCI acc kv.1 kv.2) d
+
+/-! ### the wire view (trusted description of httpx) -/
 
 /-- All values sent under header name `name`, in order (`request.headers.get_list(name)`). -/
 def wireLookup (d : Dict) (name : Str) : List Str :=
@@ -99,15 +116,16 @@ def effToken (tok : Str) : Option (Str → Str) → Str
   | none => tok
   | some cb => if cb tok ≠ [] ∧ cb tok ≠ tok then cb tok else tok
 
-/-- `headers = dict(request_args.get("headers", {})); headers[k] = v; request_args["headers"] = headers` -/
+/-- `headers = dict(request_args.get("headers", {})); merge_headers(headers, {k: v});
+    request_args["headers"] = headers` -/
 def RequestArgs.setHeader (a : RequestArgs) (k v : Str) : RequestArgs :=
-  { a with headers := some (dictSet (a.headers.getD []) k v) }
+  { a with headers := some (dictSetCI (a.headers.getD []) k v) }
 
 mutual
 /-- `plugin.authenticate_request(request_args)`. -/
 def authenticate : Plugin → RequestArgs → Except Err RequestArgs
   | .bearer tok, a => .ok (a.setHeader hAuthorization (bearerValue tok))
-  | .headers h, a => .ok { a with headers := some (dictUpdate (a.headers.getD []) h) }
+  | .headers h, a => .ok { a with headers := some (dictUpdateCI (a.headers.getD []) h) }
   | .apiKey key loc name, a =>
     if loc = locHeader then .ok (a.setHeader name key)
     else if loc = locQuery then .ok { a with params := some (dictSet (a.params.getD []) name key) }
@@ -168,16 +186,16 @@ end
 
 /-! ### the transport -/
 
-/-- Steps 1 and 2 of `_prepare_headers`: `prepared = {}`, `if self._default_headers: prepared.update(…)`
-    (`None` and `{}` are falsy), `if "headers" in kw and isinstance(kw["headers"], dict): prepared.update(…)`.
+/-- Steps 1 and 2 of `_prepare_headers`: `prepared = {}`, `if self._default_headers: merge_headers(prepared, …)`
+    (`None` and `{}` are falsy), `if "headers" in kw and isinstance(kw["headers"], dict): merge_headers(prepared, …)`.
     `reqHeaders = none` covers `headers` absent, `headers=None` and any non-dict value. -/
 def baseHeaders (defaults : Option Dict) (reqHeaders : Option Dict) : Dict :=
   let h0 : Dict := []
   let h1 := match defaults with
-    | some d => if d.isEmpty then h0 else dictUpdate h0 d
+    | some d => if d.isEmpty then h0 else dictUpdateCI h0 d
     | none => h0
   match reqHeaders with
-  | some r => dictUpdate h1 r
+  | some r => dictUpdateCI h1 r
   | none => h1
 
 /-- `HttpxTransport._prepare_headers`. -/
@@ -195,7 +213,7 @@ def prepareHeaders (defaults : Option Dict) (reqHeaders : Option Dict) (auth : O
     | .error e => .error e
   | none =>
     match bearerToken with
-    | some t => .ok (dictSet h2 hAuthorization (bearerValue t))
+    | some t => .ok (dictSetCI h2 hAuthorization (bearerValue t))
     | none => .ok h2
 
 /-- Constructor arguments of `HttpxTransport` that matter here. -/
@@ -241,6 +259,11 @@ def lastWriteCI : Dict → Str → Option Str
   | [], _ => none
   | (k', v) :: ws, name => (lastWriteCI ws name).or (if ciEq k' name then some v else none)
 
+/-- The last write to a key equal to `name` ignoring ASCII case: the spelling it used and its value. -/
+def lastWriterCI : Dict → Str → Option (Str × Str)
+  | [], _ => none
+  | (k', v) :: ws, name => (lastWriterCI ws name).or (if ciEq k' name then some (k', v) else none)
+
 /-- What the transport itself contributes after defaults and per-request headers. -/
 def authWrites (auth : Option Plugin) (bearerToken : Option Str) : Dict :=
   match auth with
@@ -252,9 +275,5 @@ def authWrites (auth : Option Plugin) (bearerToken : Option Str) : Dict :=
 /-- All header writes of one request, in the order they happen. -/
 def allWrites (defaults reqHeaders : Option Dict) (auth : Option Plugin) (bearerToken : Option Str) : Dict :=
   defaults.getD [] ++ reqHeaders.getD [] ++ authWrites auth bearerToken
-
-/-- No two written keys are equal ignoring case but different as strings. -/
-def CaseConsistent (ws : Dict) : Prop :=
-  ∀ a ∈ dictKeys ws, ∀ b ∈ dictKeys ws, ciEq a b = true → a = b
 
 end Pog
